@@ -3,6 +3,8 @@ package c18
 import (
 	"encoding/json"
 	"fmt"
+	"github.com/ajitpratap0/GoSQLX/pkg/lsp"
+	"os"
 	"strconv"
 	"strings"
 	"time"
@@ -300,16 +302,36 @@ func (s *sim) nextEvent() {
 		}
 	}
 	burst := 1
-	if s.src.Intn(40, "c18.burst") == 39 {
+	if s.src.Intn(40, "c18.burst") == 39 && !s.usedHuge {
 		burst = 60 + s.src.Intn(120, "c18.burstlen")
 		s.r.Faults["overload-burst"]++
 	}
 	for b := 0; b < burst; b++ {
 		s.oneMessage(burst > 1)
-		if s.exited || s.desynced {
+		if s.exited || s.desynced || (s.usedHuge && s.sent >= s.target) {
 			break
 		}
 	}
+}
+
+// boundaryFrame: a request whose body is exactly as long as the documented
+// maximum message size (lsp.MaxContentLength), or one byte shorter, is a legal
+// message: it is answered like any other and framing stays intact.
+func (s *sim) boundaryFrame() {
+	size := lsp.MaxContentLength - s.src.Intn(2, "c18.boundary")
+	id := s.newID()
+	uri := s.uri()
+	m := map[string]any{"jsonrpc": "2.0", "id": id, "method": "textDocument/hover",
+		"params": map[string]any{"textDocument": map[string]any{"uri": uri}, "position": map[string]any{"line": 0, "character": 0}}, "pad": ""}
+	base := len(mustJSON(m))
+	m["pad"] = strings.Repeat("x", size-base)
+	body := mustJSON(m)
+	s.pend = append(s.pend, pending{id: canonID(mustJSON(id)), method: "textDocument/hover"})
+	if !s.safeNow() {
+		s.r.Faults["overload-message"]++
+	}
+	s.r.Faults[fmt.Sprintf("frame.body-of-max-size-minus-%d", lsp.MaxContentLength-len(body))]++
+	s.send(body, fmt.Sprintf("request id=%s textDocument/hover padded to %d bytes (maximum message size %d)", mustJSON(id), len(body), lsp.MaxContentLength))
 }
 
 // hugeDocument: a document larger than the documented 5 MiB analysis limit
@@ -319,12 +341,21 @@ func (s *sim) hugeDocument() {
 	uri := s.uri()
 	text := strings.Repeat("SELECT 1;\n", (5*1024*1024)/10+2)
 	safe := s.safeNow()
+	if !safe {
+		// under overload the shrinking edit below could be dropped, and every later
+		// didSave would make the server analyse megabytes (minutes of real time)
+		s.usedHuge = false
+		return
+	}
 	s.notify("textDocument/didOpen", map[string]any{"textDocument": map[string]any{"uri": uri, "languageId": "sql", "version": 1, "text": text}})
 	s.r.Faults["document-over-5MiB"]++
 	s.everOpen = true
 	s.lastEditClass = "open-over-5MiB"
 	if !safe {
 		s.model[uri] = &mdoc{known: false, maybe: true}
+		if s.target > s.sent+3 {
+			s.target = s.sent + 3
+		}
 		return
 	}
 	s.model[uri] = &mdoc{text: text, known: true, version: 1}
@@ -341,13 +372,23 @@ func (s *sim) hugeDocument() {
 	s.notify("textDocument/didChange", map[string]any{"textDocument": map[string]any{"uri": uri, "version": 2},
 		"contentChanges": []any{map[string]any{"range": map[string]any{"start": map[string]any{"line": 1, "character": 0}, "end": map[string]any{"line": lines + 3, "character": 0}}, "text": "SELECT FROM"}}})
 	s.lastEditClass = "shrink-after-over-5MiB"
+	// a conversation that goes on for long over a multi-megabyte document only
+	// burns time (every edit is linear in the document on both sides): a few more
+	// messages, then the end
+	if s.target > s.sent+6 {
+		s.target = s.sent + 6
+	}
 	s.lastNote.uri, s.lastNote.kind, s.lastNote.safe, s.lastNote.version = uri, "change", s.safeNow(), 2
 }
 
 func (s *sim) oneMessage(inBurst bool) {
 	if s.wantHuge && !s.usedHuge && !inBurst && s.sent >= 3 {
 		s.usedHuge = true
-		s.hugeDocument()
+		if k := s.src.Intn(2, "c18.hugekind"); (k == 1 || os.Getenv("VERIF_C18_DEBUG_HUGE") == "frame") && os.Getenv("VERIF_C18_DEBUG_HUGE") != "doc" {
+			s.boundaryFrame()
+		} else {
+			s.hugeDocument()
+		}
 		return
 	}
 	k := s.src.Intn(100, "c18.kind")
@@ -380,8 +421,26 @@ func (s *sim) oneMessage(inBurst bool) {
 			s.request("shutdown", nil)
 			// between shutdown and exit the server still has to answer what it is asked
 			for i := s.src.Intn(4, "c18.aftershutdown"); i > 0; i-- {
-				s.someRequest()
-				s.r.Faults["request-after-shutdown"]++
+				switch s.src.Intn(6, "c18.aftershutdownkind") {
+				case 3:
+					s.didSave()
+					s.r.Faults["notification-after-shutdown"]++
+				case 4:
+					s.notify("$/unknownNotification", map[string]any{"x": 1})
+					s.r.Faults["notification-after-shutdown"]++
+				case 5:
+					// whether a server still applies edits after shutdown is its own
+					// business: the documents touched are not compared any more, but a
+					// notification never gets a response
+					s.didChange()
+					for _, m := range s.model {
+						m.known = false
+					}
+					s.r.Faults["notification-after-shutdown"]++
+				default:
+					s.someRequest()
+					s.r.Faults["request-after-shutdown"]++
+				}
 			}
 			if s.src.Intn(6, "c18.reinit") == 5 {
 				s.request("initialize", map[string]any{"processId": 1, "rootUri": "file:///", "capabilities": map[string]any{}})
